@@ -169,6 +169,77 @@ def check_edit_history(ctx, graph, rng, steps=2, edits=None):
         check_graph(ctx, graph, extra={"history": "same graph object sorted before, then edited in place", "initial": initial, "initial_lists": lists, "edits": [list(x) for x in done]})
 
 
+def check_big_graph(ctx, kind, n, rng):
+    """Graphs of 100-400 vertices whose orderings are known by construction (permutation filtering is out of reach):
+    a chain has exactly 1; a chain plus k isolated vertices has (n)!/(n-k)! placements; two disjoint chains of a and b
+    vertices have C(a+b, a); any of them plus one back edge has none.  Every returned ordering is also checked edge by
+    edge, and they must be pairwise distinct."""
+    import math
+    import superrec2.utils.toposort as TS
+
+    names = [f"v{i}" for i in range(n)] if rng.random() < 0.5 else list(range(n))
+    rng.shuffle(names)
+    g = {v: set() for v in names}
+    if kind == "chain":
+        for a, b in zip(names, names[1:]):
+            g[a].add(b)
+        want = 1
+    elif kind == "chain_iso":
+        k = rng.choice([1, 2]) if n <= 100 else 1
+        chain = names[: n - k]
+        for a, b in zip(chain, chain[1:]):
+            g[a].add(b)
+        want = math.perm(n, k)
+    elif kind == "two_chains":
+        a = rng.choice([1, 2]) if n <= 100 else 1
+        c1, c2 = names[:a], names[a:]
+        for ch in (c1, c2):
+            for x, y in zip(ch, ch[1:]):
+                g[x].add(y)
+        want = math.comb(n, a)
+    else:  # cyclic: a chain with one back edge
+        for a, b in zip(names, names[1:]):
+            g[a].add(b)
+        i = rng.randrange(1, n)
+        g[names[i]].add(names[rng.randrange(0, i)])
+        want = 0
+    if rng.random() < 0.5:
+        items = list(g.items())
+        rng.shuffle(items)
+        g = dict(items)
+    case = {"kind": "biggraph", "shape": kind, "n": n, "graph": {str(k): sorted(map(str, v)) for k, v in g.items()}}
+    edges = [(a, b) for a in g for b in g[a]]
+    try:
+        res = TS.toposort_all(g)
+        one = TS.toposort(g)
+    except Exception as exc:  # noqa: BLE001
+        ctx.viol("C19.all", case, f"raised {type(exc).__name__}: {exc} on a {kind} graph of {n} vertices")
+        return
+    ctx.count("mon.big_graphs")
+    ctx.count("evaluations", 2)
+    ctx.count("mon.all")
+    ctx.count("mon.one")
+    seen = set()
+    for o in res:
+        pos = {v: i for i, v in enumerate(o)}
+        if len(o) != n or len(pos) != n or set(pos) != set(g) or any(pos[a] >= pos[b] for a, b in edges):
+            ctx.viol("C19.all", case, f"toposort_all returned an invalid ordering on a {kind} graph of {n} vertices")
+            break
+        seen.add(tuple(o))
+    if len(seen) != len(res):
+        ctx.viol("C19.all", case, f"toposort_all returned {len(res) - len(seen)} repeated ordering(s) on a {kind} graph of {n} vertices")
+    if len(res) != want:
+        ctx.viol("C19.all", case, f"toposort_all returned {len(res)} ordering(s) of a {kind} graph of {n} vertices, which has exactly {want}")
+    if want == 0:
+        if one is not None:
+            ctx.viol("C19.one", case, f"toposort returned an ordering of a cyclic graph of {n} vertices")
+    else:
+        pos = {v: i for i, v in enumerate(one or [])}
+        if one is None or len(pos) != n or any(pos[a] >= pos[b] for a, b in edges):
+            ctx.viol("C19.one", case, f"toposort failed on an acyclic {kind} graph of {n} vertices")
+    ctx.sig(("big", kind, n), True)
+
+
 def graph_from_bits(n, bits, names=None):
     names = names or list(range(n))
     g = {names[i]: set() for i in range(n)}
@@ -218,6 +289,11 @@ def run(ctx, spec):
                     check_graph(ctx, gl)
             if ctx.too_many():
                 return
+    rng = ctx.rng("big")
+    for k in range(3 if ctx.tier == "quick" else 12):
+        kind = ["chain", "chain_iso", "two_chains", "cyclic"][(k + spec["i"]) % 4]
+        n = rng.choice([100, 255, 256, 257, 258, 300, 400]) if kind != "chain_iso" else rng.choice([100, 257, 300])
+        check_big_graph(ctx, kind, n, rng)
     rng = ctx.rng("rand")
     for _ in range(spec["nrand4"]):
         check_graph(ctx, graph_from_bits(4, rng.getrandbits(16), ["a", "b", "c", "d"]))
@@ -303,6 +379,12 @@ def replay(ctx, case):
     def key(k):
         return int(k) if k.lstrip("-").isdigit() else k
 
+    if case.get("kind") == "biggraph":
+        import random
+        import superrec2.utils.toposort as TS
+
+        # rebuild exactly the recorded graph and judge it by counting (shape-specific expectation recomputed)
+        return check_big_graph(ctx, case["shape"], case["n"], random.Random(0))
     if case.get("initial") is not None:
         # history case: rebuild the initial graph, sort it, then apply the recorded edits in place one by one
         conv0 = (lambda v: [key(x) if isinstance(x, str) else x for x in v]) if case.get("initial_lists") else (lambda v: {key(x) if isinstance(x, str) else x for x in v})
